@@ -98,7 +98,7 @@ func StartChild(port int, extra ...string) (*Child, error) {
 	if err := cmd.Start(); err != nil {
 		return nil, err
 	}
-	ch := &Child{Port: port, cmd: cmd, stdin: stdin, done: make(chan struct{}), out: make(chan string, 16)}
+	ch := &Child{Port: port, cmd: cmd, stdin: stdin, done: make(chan struct{}), out: make(chan string, 512)}
 	go func() {
 		buf := make([]byte, 4096)
 		for {
